@@ -168,7 +168,7 @@ PLAN = {
     "C13": _p(["C13.a", "C13.b", "C13.c"], [("time", 8, 11), ("time2", 7, 10)], ["time", "time2"],
               ["time", "crowd", "mailbox", "script", "script2"], ["P13"]),
     "C14": _p([], [("core", 9, 12)], ["core"], [], ["P03", "P07", "P08"],
-              pairs=[("resend", 160, 4000)], pairclause="C14.pair"),
+              pairs=[("resend", 120, 4000)], pairclause="C14.pair"),
     "C15": dict(_p(["C15.a", "C15.b", "C15.c"], [("usage", 7, 10), ("usage7", 7, 10)], ["usage", "usage7"],
                    ["usage", "crowd", "script2"], ["P15"]),
                 variants={"usage": [dict(usage=True, blur=0), dict(usage=True, blur=3)],
